@@ -11,14 +11,14 @@ import fam_wire
 import overlay
 import vlib
 
-BASE = ("CONSTANTS Subs <- %(subs)s Objs <- %(objs)s Bcasters <- %(bc)s MaxOps = %(ops)d MaxEv = %(ev)d AllowStop = %(stop)s AllowRespawn = %(resp)s AllowRevive = %(rev)s "
+BASE = ("CONSTANTS Subs <- %(subs)s Objs <- %(objs)s Bcasters <- %(bc)s MaxOps = %(ops)d MaxEv = %(ev)d AllowStop = %(stop)s AllowRespawn = %(resp)s AllowRevive = %(rev)s RemoteSubs <- %(rs)s "
         "SendTargets <- %(tg)s SendSenders <- %(sd)s SendPayloads <- %(pl)s\n KeyByValue = %(kbv)s DropDead = %(dd)s Export = %(exp)s\n"
         "SPECIFICATION Spec\nINVARIANTS TypeOK C12_Exact C09_Finite ExportCase\n%(live)s")
 
 
-def cfg(subs="S2", objs="O2", bc="B1", ops=4, ev=3, stop=False, tg="NoTargets", sd="NoSenders", kbv=True, dd=True, exp=True, live=True, resp=False, pl="PlainPayload", rev=False):
+def cfg(subs="S2", objs="O2", bc="B1", ops=4, ev=3, stop=False, tg="NoTargets", sd="NoSenders", kbv=True, dd=True, exp=True, live=True, resp=False, pl="PlainPayload", rev=False, rs="NoRemote"):
     b = lambda x: "TRUE" if x else "FALSE"
-    return BASE % dict(subs=subs, objs=objs, bc=bc, ops=ops, ev=ev, stop=b(stop), resp=b(resp), rev=b(rev), tg=tg, sd=sd, pl=pl, kbv=b(kbv), dd=b(dd), exp=b(exp),
+    return BASE % dict(subs=subs, objs=objs, bc=bc, ops=ops, ev=ev, stop=b(stop), resp=b(resp), rev=b(rev), rs=rs, tg=tg, sd=sd, pl=pl, kbv=b(kbv), dd=b(dd), exp=b(exp),
                        live="PROPERTIES C09_Live\n" if live else "")
 
 
@@ -26,11 +26,14 @@ PLAN = {
     "C12": {"quick": [("subs2_objs2_ops4", dict(subs="S2", objs="O2", bc="B2", ops=4, ev=2)),
                       ("respawn_ops4", dict(subs="S1", objs="O2", bc="B1", ops=4, ev=2, resp=True)),
                       # a subscriber stops without unsubscribing, events pass, the id is spawned again and subscribes
+                      # a subscriber on another node (PIDs are identified by address and id, not by their concatenation)
+                      ("remote_sub_ops4", dict(subs="SR", objs="O1", bc="B1", ops=4, ev=2, rs="R1")),
                       ("revive_ops5", dict(subs="S1", objs="O1", bc="B1", ops=5, ev=2, stop=True, rev=True)),
                       ("subs2_objs2_ops5_b1", dict(subs="S2", objs="O2", bc="B1", ops=5, ev=1))],
             "thorough": [("subs2_objs2_ops5", dict(subs="S2", objs="O2", bc="B2", ops=5, ev=3)),
                          ("subs2_stop_ops5", dict(subs="S2", objs="O2", bc="B1", ops=5, ev=3, stop=True)),
                          ("respawn_ops5", dict(subs="S2", objs="O1", bc="B1", ops=5, ev=2, resp=True, stop=True)),
+                         ("remote_sub_ops5", dict(subs="SR", objs="O2", bc="B1", ops=5, ev=2, rs="R1", stop=True)),
                          ("revive_ops6", dict(subs="S2", objs="O1", bc="B1", ops=6, ev=2, stop=True, rev=True))]},
     "C09": {"quick": [("dead_ops3", dict(subs="SM", objs="O1", bc="B1", ops=3, ev=2, stop=True, tg="AllTargets", sd="BothSenders")),
                       ("dead_ops4_small", dict(subs="SM", objs="O1", bc="B1", ops=4, ev=1, stop=True, tg="SomeTargets", sd="NoSenders")),
